@@ -526,6 +526,10 @@ def check_model(ctx, p, rs, rl, api):
 
 # ------------------------------------------------------------------ run
 
+UNSTABLE_SIG = ("call-site:einx/_src/util/solver.py 'Sympy returned multiple possible solutions': a description whose size equations are non-linear "
+                "in one axis is solved or rejected depending on the random names of its unnamed axes (repeating the same call changes the outcome)")
+
+
 def one_pair(ctx, p, found):
     api = p.get("api") or ("solve_axes" if ctx.rng.random() < 0.6 else "solve_shapes")
     kind = p["kind"]
@@ -552,6 +556,20 @@ def one_pair(ctx, p, found):
     else:
         ctx.count(f"stage2:{kind}:real-pair:" + ("agree:" + ("values" if rs["ok"] else "both-raise:" + str(rs.get("exc"))) if why is None else "DIFFER"))
     if why is not None:
+        # Is the difference a property of the pair, or is one of the two calls unstable by itself?  einx hands non-linear size
+        # equations (e.g. `(a a) (a + 2 + a)` = 300) to sympy under fresh random axis names; the order in which sympy returns
+        # the roots then varies from call to call and the very same call sometimes fails with "Sympy returned multiple possible
+        # solutions" (a defect of einx recorded under its call site in known_findings.json).  Repeat both calls.
+        def stable(desc, params):
+            seen = set()
+            for _ in range(4):
+                r = real_outcome(desc, p["shapes"], params, api)
+                seen.add((r.get("ok"), r.get("exc"), json.dumps(r.get("axes"), sort_keys=True, default=str), json.dumps(r.get("shapes"), default=str)))
+            return len(seen) == 1
+        if not stable(p["short"][0], p["short"][1]) or not stable(p["long"][0], p["long"][1]):
+            ctx.count(f"stage2:{kind}:real-pair:call-unstable-across-repetitions")
+            ctx.violation(UNSTABLE_SIG, {"kind": "the same call gives different outcomes when repeated in one process", "example": replay_doc(p, api, why)})
+            return
         found[kind] = found.get(kind, 0) + 1
         if found[kind] <= 2:
             ctx.violation(sig, replay_doc(p, api, why))
